@@ -233,6 +233,14 @@ func (w *world) prepare(ev Event) (func() callResult, error) {
 		return func() callResult {
 			return callResult{typ: typ, bytes: w.ctx.LookupTypeValue(typ).Bytes()}
 		}, nil
+	case "reset":
+		return func() callResult {
+			w.ctx.Reset()
+			// every type object handed out so far is dead now
+			w.firstTV = map[zed.Type][]byte{}
+			w.mapper = zed.NewMapper(w.ctx)
+			return callResult{}
+		}, nil
 	case "tdef":
 		name := u.name(ev.NM)
 		return func() callResult {
@@ -292,7 +300,7 @@ func (w *world) checkResult(ev Event, call Event, r callResult) {
 		w.driftf("%s(%s): spec predicts type id %d, real %d (%v)", call.M, termText(call.OT), ev.R, got, r.err)
 	}
 	switch call.M {
-	case "tdef":
+	case "tdef", "reset":
 		return
 	case "tval":
 		if want, err := u.encode(ev.RB); err == nil && !bytes.Equal(want, r.bytes) && !isGarbage(ev.RB) {
@@ -419,6 +427,13 @@ func (w *world) runLine(ln *Line) error {
 			}
 			p.inSeg = false
 			if ev.Fin {
+				if p.res == nil {
+					// The hook sits after the last NameDef of a bare decode:
+					// what remains is the return path, no further section.
+					if err := w.resume(p); err != nil {
+						return err
+					}
+				}
 				if p.res == nil {
 					w.driftf("event %d: spec says the call of process %d is complete but the real call is parked in the hook", i, ev.P)
 					return nil
